@@ -276,16 +276,16 @@ func firstMismatch(v *mval, t *mtype) string {
 	switch {
 	case t.K == tAny:
 		return kindTag(v) + "->any"
-	case t.K == tOpt && v.K == mOpt && v.Inner != nil:
+	case t.K == mkOpt && v.K == mOpt && v.Inner != nil:
 		return firstMismatch(v.Inner, t.Elem)
-	case t.K == tOpt && v.K == mOpt:
+	case t.K == mkOpt && v.K == mOpt:
 		return "none->option"
-	case t.K == tOpt:
+	case t.K == mkOpt:
 		if refcast(v, t.Elem, true).OK {
 			return kindTag(v) + "->option(wrap)"
 		}
 		return kindTag(v) + "->option(mismatch)"
-	case t.K == tList && v.K == mList:
+	case t.K == mkList && v.K == mList:
 		for pass := 0; pass < 2; pass++ {
 			for _, e := range v.Elems {
 				if (pass == 0 && !castable(e, t.Elem)) || (pass == 1 && !conforms(e, t.Elem)) {
@@ -493,9 +493,9 @@ func probe(t *mtype, e string, d int) string {
 		return `print("any;"); `
 	case tAnyObj:
 		return fmt.Sprintf(`print("ao", %s.keys(), %s.get("a").is_some(), %s.get("b").is_some(), ";"); `, e, e, e)
-	case tOpt:
+	case mkOpt:
 		return fmt.Sprintf(`if %s.is_some() { print("S("); %sprint(")"); } else { print("N;"); } `, e, probe(t.Elem, e+".unwrap()", d))
-	case tList:
+	case mkList:
 		if t.Elem.containsAny() {
 			return fmt.Sprintf(`print("[", %s.len(), ":any]"); `, e)
 		}
@@ -531,12 +531,12 @@ func probeText(t *mtype, v *mval) string {
 		return "any;"
 	case tAnyObj:
 		return fmt.Sprintf("ao %s %v %v ;", keys(v), v.field("a") != nil, v.field("b") != nil)
-	case tOpt:
+	case mkOpt:
 		if v.Inner == nil {
 			return "N;"
 		}
 		return "S(" + probeText(t.Elem, v.Inner) + ")"
-	case tList:
+	case mkList:
 		if t.Elem.containsAny() {
 			return fmt.Sprintf("[ %d :any]", len(v.Elems))
 		}
@@ -893,12 +893,6 @@ func c12HostOutcome(ex c12Expect, t *mtype, v *mval, o Obs, hp string, tags []st
 	return "admitted"
 }
 
-func firstN(s string, n int) string {
-	if len(s) > n {
-		return s[:n] + "..."
-	}
-	return s
-}
 
 func c12SpawnRet(tier string, idx int, r *Result) {
 	v, t := c12Universe(tier).pair(idx)
